@@ -734,6 +734,9 @@ fn code_bytes(max: usize) -> impl Strategy<Value = Vec<u8>> {
         3 => prop::collection::vec(any::<u8>(), 0..max),
         2 => prop::collection::vec(prop_oneof![Just(0x5bu8), Just(0x60), Just(0x7f), Just(0x00), Just(0x61), any::<u8>()], 0..max),
         1 => prop::collection::vec(any::<u8>(), 0..40),
+        // tails that look like analysis padding or like a cut PUSH: 0..80 zero bytes / STOPs / a trailing PUSHn with 0..n data bytes
+        3 => (prop::collection::vec(any::<u8>(), 0..40), 0usize..80, prop_oneof![4 => Just(0x00u8), 1 => Just(0x5b), 1 => any::<u8>()]).prop_map(|(mut v, n, fill)| { v.extend(std::iter::repeat(fill).take(n)); v }),
+        1 => (prop::collection::vec(any::<u8>(), 0..40), 0x60u8..=0x7f, 0usize..34).prop_map(|(mut v, push, k)| { v.push(push); v.extend(std::iter::repeat(0u8).take(k)); v }),
     ]
 }
 
